@@ -1353,3 +1353,32 @@ package flags
 //@   let l := utf8.RuneCountInString(name) + ite(indent, 4, 0)
 //@   ensures[C17] a.maxLongLen == ite(l > old(a.maxLongLen), l, old(a.maxLongLen))
 //@   assigns a.maxLongLen
+
+// ===================================================================
+// C18: completion
+// ===================================================================
+
+//@ func completionsWithoutDescriptions(items []string) (r []Completion)
+//@   props C18 C04
+//@   loop 1 invariant len(ret) == len(items) && forall(i, 0, idx_1, ret[i].Item == items[i])
+//@   ensures[C18] len(r) == len(items) && forall(i, 0, len(items), r[i].Item == items[i])
+
+//@ func (c *completion) skipPositional(s *parseState, n int)
+//@   props C18 C04
+//@   requires s != nil && n >= 0
+//@   ensures[C18] n >= len(old(s.positional)) ==> len(s.positional) == 0
+//@   ensures[C18] n < len(old(s.positional)) ==> same(s.positional, old(s.positional)[n:])
+//@   assigns s.positional
+
+// Subcommand completion: exactly the non-hidden subcommands of the current
+// command whose name starts with the partial word.
+//@ pure func cmdOffered(c *completion, cmd *Command, match string) bool = cmd.data != c && !cmd.Hidden && hasPrefix(cmd.Name, match)
+//@ func (c *completion) completeCommands(s *parseState, match string) (r []Completion)
+//@   props C18 C04
+//@   requires s != nil && s.command != nil
+//@   loop 1 invariant len(n) <= idx_1
+//@   loop 1 invariant forall(i, 0, len(n), exists(j, 0, idx_1, cmdOffered(c, s.command.commands[j], match) && n[i].Item == s.command.commands[j].Name && n[i].Description == s.command.commands[j].ShortDescription))
+//@   loop 1 invariant forall(j, 0, idx_1, cmdOffered(c, s.command.commands[j], match) ==> exists(i, 0, len(n), n[i].Item == s.command.commands[j].Name))
+//@   ensures[C18] forall(i, 0, len(r), exists(j, 0, len(s.command.commands), cmdOffered(c, s.command.commands[j], match) && r[i].Item == s.command.commands[j].Name && r[i].Description == s.command.commands[j].ShortDescription))
+//@   ensures[C18] forall(j, 0, len(s.command.commands), cmdOffered(c, s.command.commands[j], match) ==> exists(i, 0, len(r), r[i].Item == s.command.commands[j].Name))
+//@   assigns nothing
